@@ -1,6 +1,7 @@
 package dsim
 
 import (
+	"context"
 	"bytes"
 	"errors"
 	"fmt"
@@ -135,7 +136,12 @@ func newSmcWorld(e *Env, wd bool) *smcWorld {
 		WatchdogInterval:   w.W,
 	}
 	// advertised applications
-	switch t.Pick(3, 2, 2, 1) {
+	switch t.Pick(3, 2, 2, 1, 1) {
+	case 4:
+		// an application the dictionary declares under both types, advertised under both
+		w.cli.AuthApplicationID = []*diam.AVP{diam.NewAVP(avp.AuthApplicationID, avp.Mbit, 0, datatype.Unsigned32(4)), diam.NewAVP(avp.AuthApplicationID, avp.Mbit, 0, datatype.Unsigned32(9001))}
+		w.cli.AcctApplicationID = []*diam.AVP{diam.NewAVP(avp.AcctApplicationID, avp.Mbit, 0, datatype.Unsigned32(9001))}
+		w.advertised[appKey{4, "auth"}], w.advertised[appKey{9001, "auth"}], w.advertised[appKey{9001, "acct"}] = true, true, true
 	case 0:
 		w.cli.AuthApplicationID = []*diam.AVP{diam.NewAVP(avp.AuthApplicationID, avp.Mbit, 0, datatype.Unsigned32(4))}
 		w.advertised[appKey{4, "auth"}] = true
@@ -892,7 +898,16 @@ func c13ClientX(e *Env, forC14 bool, forced *c13Forced) {
 	}
 	w.mu.Lock()
 	hsAt := w.dialAt
+	appConn := w.conn
 	w.mu.Unlock()
+	if forced == nil && appConn != nil && t.Chance(1, 5) {
+		// the application hangs a context of its own on the connection (derived from the
+		// connection's, as it should be) and later cancels it: its business, not the watchdog's
+		ctx, cancel := context.WithCancel(appConn.Context())
+		appConn.SetContext(ctx)
+		cancel()
+		e.Probe("application-context-cancelled")
+	}
 	nCycles := t.Pick(2, 3, 3, 1) * 3
 	if t.Chance(1, 6) {
 		nCycles = 22 // bounded liveness: a responsive peer is spared for many cycles
